@@ -333,7 +333,7 @@ def _auto_discharge(cg: CG, s: RaiseSite) -> Optional[str]:
             return "dominating `i < len(x)` test"
         r = _string_escape_shape(s)
         if r:
-            return r
+            return r  # may carry the UNSAFE marker: the caller reports it
         # `x or default`-style:  (x[0] if x else ...) handled by facts; os.path.splitext(...)[0] is a 2-tuple
         if isinstance(n.value, ast.Call) and src_of(n.value.func) in ("os.path.splitext", "os.path.split") and isinstance(idx, ast.Constant) and idx.value in (0, 1):
             return "os.path.splitext/split return a 2-tuple"
@@ -347,6 +347,9 @@ def _auto_discharge(cg: CG, s: RaiseSite) -> Optional[str]:
     if s.kind == "int" and isinstance(n, ast.Call):
         return _int_regex_shape(cg, s)
     return None
+
+
+UNSAFE = "UNSAFE:"
 
 
 def _string_escape_shape(s: RaiseSite) -> Optional[str]:
@@ -393,12 +396,12 @@ def _string_escape_shape(s: RaiseSite) -> Optional[str]:
     except Exception:
         return None
     if len(items) != 3 or items[0] != ("LITERAL", 34) or items[2] != ("LITERAL", 34) or items[1][0] not in ("MIN_REPEAT", "MAX_REPEAT"):
-        return None
+        return UNSAFE + "the token regex lets a backslash stand alone inside the quotes (e.g. directly before the closing quote): the character after it does not exist"
     body = list(items[1][1][2])
     while len(body) == 1 and str(body[0][0]) == "SUBPATTERN":
         body = list(body[0][1][3])
     if len(body) != 1 or str(body[0][0]) != "BRANCH":
-        return None
+        return UNSAFE + "the token regex lets a backslash stand alone inside the quotes (e.g. directly before the closing quote): the character after it does not exist"
     for alt in body[0][1][1]:
         alt = list(alt)
         while len(alt) == 1 and str(alt[0][0]) == "SUBPATTERN":
@@ -408,12 +411,12 @@ def _string_escape_shape(s: RaiseSite) -> Optional[str]:
             members = [(str(o), a) for o, a in ops[0][1]]
             if ("NEGATE", None) in members and ("LITERAL", 92) in members:
                 continue  # any char except backslash (and others)
-            return None
+            return UNSAFE + "the token regex lets a backslash stand alone inside the quotes (e.g. directly before the closing quote): the character after it does not exist"
         if len(ops) == 1 and ops[0][0] == "NOT_LITERAL" and ops[0][1] == 92:
             continue
         if len(ops) == 2 and ops[0] == ("LITERAL", 92) and ops[1][0] in ("ANY", "IN", "NOT_LITERAL", "LITERAL"):
             continue  # backslash + exactly one more character
-        return None
+        return UNSAFE + "the token regex lets a backslash stand alone inside the quotes (e.g. directly before the closing quote): the character after it does not exist"
     return "regex shape: inside the quotes a backslash only occurs as the first half of a two-character pair, so s[i+1] exists"
 
 
@@ -464,26 +467,28 @@ def _int_regex_shape(cg: CG, s: RaiseSite) -> Optional[str]:
             pass
         else:
             return None
+    elif lits > k:
+        return UNSAFE + f"the slice starts {lits - k} character(s) inside the token's literal prefix: int() rejects the letters"
     elif lits != k:
         return None
     if len(rest) != 1 or rest[0][0] != "MAX_REPEAT":
         return None
     lo, hi, sub = rest[0][1]
     if lo < 1:
-        return None
+        return UNSAFE + "the token regex admits text that int() with this prefix length / base rejects"
     sub = list(sub)
     if len(sub) != 1 or str(sub[0][0]) != "IN":
-        return None
+        return UNSAFE + "the token regex admits text that int() with this prefix length / base rejects"
     allowed = set("0123456789") if base == 10 else set("0123456789abcdefABCDEF")
     for op, av in sub[0][1]:
         if str(op) == "RANGE":
             if not all(chr(c) in allowed for c in range(av[0], av[1] + 1)):
-                return None
+                return UNSAFE + "the token regex admits text that int() with this prefix length / base rejects"
         elif str(op) == "LITERAL":
             if chr(av) not in allowed:
-                return None
+                return UNSAFE + "the token regex admits text that int() with this prefix length / base rejects"
         else:
-            return None
+            return UNSAFE + "the token regex admits text that int() with this prefix length / base rejects"
     return f"regex shape: {lits}-character literal prefix then one or more base-{base} digits"
 
 
@@ -554,6 +559,16 @@ def a1(repo: Repo) -> RuleResult:
                 status = "A2: dispatch covers its domain"
             else:
                 r = _auto_discharge(cg, s)
+                if r and r.startswith(UNSAFE):
+                    unsafe_why = r[len(UNSAFE):]
+                    k0 = _site_key(s)
+                    res.inst(part=kind, entry=label, site=f"{s.file}:{s.unit.fn.qual}", exc=s.exc, status="UNSAFE")
+                    if k0 not in reported:
+                        reported.add(k0)
+                        f = Finding("A1", s.file, s.line, s.unit.fn.qual, s.detail, f"{s.exc} can escape {label} (allowed: {list(allowed) or 'nothing'}): {unsafe_why}", witness="token text the regex admits but the action cannot handle", path=cg.path_to(esc, entry, key), tag=f"{s.exc}:{short(s.detail, 80)}")
+                        f.part = kind
+                        res.bad(f)
+                    continue
                 if r:
                     status = r
             k = _site_key(s)
